@@ -174,6 +174,15 @@ def make_valet():
     return serving.Valet(app=app, servant=srv), srv
 
 
+def follow_up_hits_c31_defect(msg):
+    """A non-persistent request WITH A BODY that follows an answered request on the same connection is
+    dropped by Valet.serviceReps as soon as its head is parsed (it looks at the new .persisted while
+    the previous responder is still .ended) -- a keep-alive sequencing defect (C31's subject, reported),
+    not a malformed-input one; such follow-ups are not generated here."""
+    _, v = H.http_impl("req", [msg])
+    return bool(v.get("headed") and not v.get("persisted") and (v.get("chunked") or (v.get("length") or 0) > 0))
+
+
 def run_valet(nconn, sched, extra_passes=3):
     """sched: [(conn index, piece)].  returns per connection (responses, closed) + escape"""
     valet, srv = make_valet()
@@ -203,6 +212,84 @@ def run_valet(nconn, sched, extra_passes=3):
         out.append({"responses": sent.count(b"HTTP/1.1 200 OK") + sent.count(b"HTTP/1.0 200 OK"),
                     "closed": ix.closed, "first": sent[:15].decode("latin-1"),
                     "body": sent.split(b"\r\n\r\n", 1)[1][:12].decode("latin-1") if b"\r\n\r\n" in sent else ""})
+    return out, esc
+
+
+def run_valet_tls(nconn, sched, extra_passes=6):
+    """https Valet over a real ServerTls whose accepted-but-not-handshaked incomers (.cxes) are doubles.
+    sched: [(conn, 'hs', 'want'|'done'|'fail') | (conn, 'bytes', piece)]"""
+    import ssl
+    from ioflo.aid.odicting import odict
+    from ioflo.aio.http import serving
+    from ioflo.aio.tcp import ServerTls
+
+    class Cx(IxDouble):
+        def __init__(self, ca):
+            IxDouble.__init__(self, ca)
+            self.script = deque()
+            self.connected = False
+            self.cs = object()
+
+        def serviceHandshake(self):
+            if self.cs is None:      # what the real IncomerTls does on a closed socket
+                raise AttributeError("'NoneType' object has no attribute 'do_handshake'")
+            if self.connected:
+                return True
+            r = self.script.popleft() if self.script else "want"
+            if r == "fail":
+                self.cs = None
+                self.closed = True
+                raise ssl.SSLError(1, "[SSL: HTTP_REQUEST] http request")
+            if r == "done":
+                self.connected = True
+            return self.connected
+
+    class Srv(ServerTls):
+        def __init__(self):
+            self.ixes, self.cxes, self.axes = odict(), odict(), deque()
+            self.name, self.eha, self.ha = "double", ("127.0.0.1", 8443), ("0.0.0.0", 8443)
+
+        def serviceAxes(self):
+            pass
+
+        def reopen(self):
+            return True
+
+    def app(environ, start_response):
+        start_response("200 OK", [("Content-Type", "text/plain"), ("Content-Length", "2")])
+        return [b"ok"]
+
+    serving.console.reinit(verbosity=0)
+    srv = Srv()
+    valet = serving.Valet(app=app, servant=srv)
+    cxs = []
+    for i in range(nconn):
+        cx = Cx(("10.0.1.%d" % (i + 1), 6000 + i))
+        srv.cxes[cx.ca] = cx
+        cxs.append(cx)
+    esc = None
+    err, sys.stderr = sys.stderr, io.StringIO()
+    try:
+        try:
+            for i, kind, val in sched:
+                cx = cxs[i]
+                if kind == "hs":
+                    if cx.ca in srv.cxes:
+                        cx.script.append(val)
+                elif cx.ca in srv.ixes and not cx.closed:
+                    cx.rxbs.extend(val)
+                valet.serviceAll()
+            for _ in range(extra_passes):
+                valet.serviceAll()
+        except Exception as ex:
+            esc = "%s: %s" % (type(ex).__name__, str(ex)[:120])
+    finally:
+        sys.stderr = err
+    out = []
+    for cx in cxs:
+        sent = bytes(cx.sent)
+        phase = 0 if cx.ca in srv.cxes else (1 if cx.connected else 2)
+        out.append({"phase": phase, "responses": sent.count(b" 200 OK\r\n"), "closed": cx.closed})
     return out, esc
 
 
@@ -316,35 +403,46 @@ def run(ctx):
         ctx.tie_broken("correspondence", "C32 model vs %s" % ("Requestant" if kind == "req" else "Respondent"),
                        "pieces=%r close=%r head=%r impl=%r" % (pieces, close, headreq, view))
 
-    # (2) Valet with 3 connections
+    # (2) Valet with 3 keep-alive connections: each gets 1-3 successive / pipelined messages (good,
+    #     good-but-not-persistent, malformed), cut into pieces and interleaved
     vcases, vmetas = [], []
     good = [b"GET / HTTP/1.1\r\nHost: a\r\n\r\n", b"POST /p HTTP/1.1\r\nContent-Length: 3\r\n\r\nabc",
             b"PUT /c HTTP/1.1\r\nTransfer-Encoding: chunked\r\n\r\n2\r\nhi\r\n0\r\n\r\n",
-            b"GET /old HTTP/1.0\r\n\r\n"]
+            b"GET /k HTTP/1.0\r\nConnection: Keep-Alive\r\n\r\n"]
+    final = [b"GET /old HTTP/1.0\r\n\r\n", b"GET /bye HTTP/1.1\r\nConnection: close\r\n\r\n"]
     for _ in range(ctx.n(250, 1500)):
         msgs = []
         for j in range(3):
-            r = rng.random()
-            if r < 0.45:
-                msgs.append(rng.choice(good))
-            elif r < 0.75:
-                msgs.append(G.targeted(rng, "req"))
-            else:
-                msgs.append(G.mutate(rng, rng.choice(good)))
-        queues = [H.random_split(rng, m, 4) if m else [] for m in msgs]
+            seq = b""
+            for _k in range(rng.choice([1, 1, 2, 3])):
+                r = rng.random()
+                if r < 0.5:
+                    nxt = rng.choice(good)
+                elif r < 0.62:
+                    nxt = rng.choice(final)
+                elif r < 0.85:
+                    nxt = G.targeted(rng, "req")
+                else:
+                    nxt = G.mutate(rng, rng.choice(good))
+                if seq and follow_up_hits_c31_defect(nxt):
+                    nxt = b"BREW / HTTP/1.1\r\n\r\n"
+                seq += nxt
+            msgs.append(seq)
+        queues = [H.random_split(rng, m, 5) if m else [] for m in msgs]
         sched = []
         while any(queues):
             j = rng.choice([k for k in range(3) if queues[k]])
             sched.append((j, queues[j].pop(0)))
-        obs, esc = run_valet(3, sched)
+        obs, esc = run_valet(3, sched, extra_passes=10)
         ctx.case({"sched": [(j, p.decode("latin-1")) for j, p in sched], "obs": obs, "escaped": esc},
-                 nontrivial=any(o["responses"] == 0 for o in obs) or esc is not None,
-                 kind="valet/" + ("escaped" if esc else "closed=%d" % sum(1 for o in obs if o["closed"] and not o["responses"])))
+                 nontrivial=any(o["closed"] for o in obs) or esc is not None,
+                 kind="valet/" + ("escaped" if esc else "responses=%d,closed=%d" % (
+                     min(sum(o["responses"] for o in obs), 6), sum(1 for o in obs if o["closed"]))))
         bad_urls = sorted(set(u for m in msgs for u in H.bad_urls(m)))
-        expr = ("flat_map (fun c => [match outcome_of valet_catch (c_k c) with OMessage => 0 | ONeedMore => 1 "
-                "| OFailed => 2 | OEscapes => 3 end]) (run_sched (mkcfg 65536 100 %s) %s [fresh; fresh; fresh])"
+        expr = ("flat_map (fun k => [Z.of_nat (ka_responses k); if ka_closed k then 1 else 0]) "
+                "(grun ka_conn bytes (ka_deliver (mkcfg 65536 100 %s)) %s [ka_init; ka_init; ka_init])"
                 % (H.zll(bad_urls), "[" + ";".join("(%d%%nat, %s)" % (j, H.zl(p)) for j, p in sched) + "]"))
-        flat = [9, 9, 9] if esc else [0 if o["responses"] >= 1 else (2 if o["closed"] else 1) for o in obs]
+        flat = [9] * 6 if esc else sum(([o["responses"], 1 if o["closed"] else 0] for o in obs), [])
         vcases.append((expr, H.zl(flat)))
         vmetas.append((msgs, sched, obs, esc))
     vheader = H.HEADER.replace("Require Import V.Lib.C29_Http V.Lib.C29_HttpObs.",
@@ -352,7 +450,47 @@ def run(ctx):
     vbad = ctx.coq_cases(vheader, "beq", vcases, name="c32valet")
     for i in vbad[:3]:
         msgs, sched, obs, esc = vmetas[i]
-        ctx.tie_broken("correspondence", "C32 server model vs Valet.serviceAll",
+        ctx.tie_broken("correspondence", "C32 keep-alive server model vs Valet.serviceAll",
+                       "sched=%r impl=%r escaped=%r" % (sched, obs, esc))
+
+    # (2b) https Valet: real ServerTls.serviceCxes / serviceConnects with incomer doubles whose
+    #      handshake result is scripted (want / done / fail = shutclose + raise ssl.SSLError)
+    tcases, tmetas = [], []
+    for _ in range(ctx.n(150, 1200)):
+        evs = []
+        for j in range(3):
+            es = [("hs", "want")] * rng.randint(0, 2)
+            r = rng.random()
+            es.append(("hs", "fail" if r < 0.35 else "done"))
+            if rng.random() < 0.2:
+                es.append(("hs", rng.choice(["fail", "done"])))
+            for p in H.random_split(rng, rng.choice(good + final + [G.targeted(rng, "req")]), 3):
+                es.append(("bytes", p))
+            evs.append(es)
+        sched = []
+        while any(evs):
+            j = rng.choice([k for k in range(3) if evs[k]])
+            sched.append((j,) + evs[j].pop(0))
+        obs, esc = run_valet_tls(3, sched)
+        ctx.case({"sched": [(j, k, v if k == "hs" else v.decode("latin-1")) for j, k, v in sched], "obs": obs,
+                  "escaped": esc}, nontrivial=True,
+                 kind="valet-tls/" + ("escaped" if esc else "dropped=%d" % sum(1 for o in obs if o["phase"] == 2)))
+        def cev(k, v):
+            return ("TlsHandshake %s" % {"want": "HsWant", "done": "HsDone", "fail": "HsFail"}[v]) if k == "hs" \
+                else "TlsBytes %s" % H.zl(v)
+        bad_urls = sorted(set(u for j in range(3)
+                              for u in H.bad_urls(b"".join(v for i, k, v in sched if i == j and k == "bytes"))))
+        expr = ("flat_map (fun c => [match fst c with Handshaking => 0 | Established => 1 | Dropped => 2 end; "
+                "Z.of_nat (ka_responses (snd c))]) (grun tls_conn tls_event (tls_deliver (mkcfg 65536 100 %s)) %s "
+                "[(Handshaking, ka_init); (Handshaking, ka_init); (Handshaking, ka_init)])"
+                % (H.zll(bad_urls), "[" + ";".join("(%d%%nat, %s)" % (j, cev(k, v)) for j, k, v in sched) + "]"))
+        flat = [9] * 6 if esc else sum(([o["phase"], o["responses"]] for o in obs), [])
+        tcases.append((expr, H.zl(flat)))
+        tmetas.append((sched, obs, esc))
+    tbad = ctx.coq_cases(vheader, "beq", tcases, name="c32tls")
+    for i in tbad[:3]:
+        sched, obs, esc = tmetas[i]
+        ctx.tie_broken("correspondence", "C32 TLS server model vs Valet(https).serviceAll",
                        "sched=%r impl=%r escaped=%r" % (sched, obs, esc))
 
     # (3) Patron
@@ -403,7 +541,7 @@ def run(ctx):
         pieces, close, ob = pmetas[i]
         ctx.tie_broken("correspondence", "C32 client model vs Patron.serviceAll",
                        "pieces=%r close=%r impl=%r" % (pieces, close, ob))
-    ctx.extra["mismatches"] = len(bad) + len(vbad) + len(pbad)
+    ctx.extra["mismatches"] = len(bad) + len(vbad) + len(tbad) + len(pbad)
     ctx.exhaustive = False
 
     def search():
@@ -452,6 +590,18 @@ def run(ctx):
                                         "receives": [(k, p.decode("latin-1")) for k, p in sched], "connection": j,
                                         "observed": obs[j], "expected_as_when_alone": o1[0],
                                         "contradicts": "C32.Props.conn_sees_only_its_own_receives"})
+        for sched, obs, esc in tmetas:
+            if esc is not None:
+                # shrink: one connection whose handshake fails next to one that completes and sends a request
+                small = [(0, "hs", "fail"), (1, "hs", "done"), (1, "bytes", good[0])]
+                o2, e2 = run_valet_tls(2, small)
+                use, uo, ue = (small, o2, e2) if e2 is not None else (sched, obs, esc)
+                consider(sum(len(v) for _, k, v in use if k == "bytes"),
+                         {"key": "valet-tls-handshake-wedge", "server": "Valet(scheme https) over ServerTls.serviceCxes",
+                          "events": [(j, k, v if k == "hs" else v.decode("latin-1")) for j, k, v in use],
+                          "observed": "exception out of serviceAll: " + ue, "connections": uo,
+                          "expected": "failed handshake drops that connection only; the other one is answered",
+                          "contradicts": "C32.Props.tls_other_conns_untouched / tls_failed_handshake_drops_only_itself"})
         for pieces, close, ob in pmetas:
             if ob["escaped"] is not None:
                 consider(sum(len(p) for p in pieces),
